@@ -258,6 +258,8 @@ def run(ctx, replay=None):
                     for sd in seeds:
                         if cond > 1 and min(sh) == 1:
                             continue
+                        if kind in ("rsp_col", "rsp_row", "hybrid") and cfg["block"] > min(sh):
+                            continue        # the property quantifies over block sizes 1..min(m, n); only compute() clamps a larger one
                         tid += 1
                         jobs.append((tid, kind, cfg, sh, cond, tol, ctx.seed * 1000 + sd))
     for sh in shapes_row:
@@ -266,9 +268,9 @@ def run(ctx, replay=None):
                 for sd in seeds:
                     if cond > 1 and min(sh) == 1:
                         continue
-                    for kind, cfg in (("rsp_row", {"block": 2, "max_iter": 300}), ("rsp_row", {"block": 1, "max_iter": 300, "test": "default"}), ("rsp_row", {"block": 3, "max_iter": 300, "test": "default"}), ("rsp_row", {"block": 2, "max_iter": 300, "test": 2, "seed": 1}), ("rsp", {"block": 3, "solver": "qr", "max_iter": 300}),
+                    for kind, cfg in (c_ for c_ in (("rsp_row", {"block": 2, "max_iter": 300}), ("rsp_row", {"block": 1, "max_iter": 300, "test": "default"}), ("rsp_row", {"block": 3, "max_iter": 300, "test": "default"}), ("rsp_row", {"block": 2, "max_iter": 300, "test": 2, "seed": 1}), ("rsp", {"block": 3, "solver": "qr", "max_iter": 300}),
                                       # single-row sketches (1 x 1 Gram solves) and blocks as large as the matrix, small budget
-                                      ("rsp_row", {"block": 1, "max_iter": 80}), ("rsp_row", {"block": sh[0], "max_iter": 60})):
+                                      ("rsp_row", {"block": 1, "max_iter": 80}), ("rsp_row", {"block": sh[0], "max_iter": 60})) if c_[0] == "rsp" or c_[1]["block"] <= min(sh)):
                         tid += 1
                         jobs.append((tid, kind, cfg, sh, cond, tol, ctx.seed * 1000 + sd))
     events = par.pmap(_run, jobs, chunk=1)
